@@ -782,6 +782,62 @@ pub fn classify(prop: &str, total: &WorkerOut, make_replay: &dyn Fn(&VRec) -> Op
     (exit, known_seen, n_viol)
 }
 
+pub const DEEP_OPS: &[&str] = &["element-serialize", "sort", "duplicate", "copy", "remove", "dfs", "cmp", "check-compat", "path", "remove-file"];
+
+/// run one recursive call on a chain of `depth` nested elements in a child process; true = the child finished
+pub fn deep_case(depth: usize, op: &str) -> (bool, String) {
+    let exe = std::env::current_exe().expect("current exe");
+    match Command::new(exe).arg("deep-worker").arg(depth.to_string()).arg(op).env("VERIF_QUIET_PANICS", "1").output() {
+        Ok(out) => {
+            let done = out.status.success() && String::from_utf8_lossy(&out.stdout).contains("done");
+            (done, format!("{:?} {}", out.status, String::from_utf8_lossy(&out.stderr).lines().last().unwrap_or("").chars().take(120).collect::<String>()))
+        }
+        Err(e) => (false, format!("spawn failed: {e}")),
+    }
+}
+
+/// C12, deep nesting: every recursive call on element chains of increasing depth, each in its own process
+fn deep_phase(thorough: bool, total: &mut WorkerOut) {
+    let depths: &[usize] = if thorough { &[1000, 3000, 12000, 25000] } else { &[1000, 3000, 12000] };
+    let mut handles = Vec::new();
+    for d in depths {
+        for op in DEEP_OPS {
+            let (d, op) = (*d, op.to_string());
+            handles.push(std::thread::spawn(move || (d, op.clone(), deep_case(d, &op))));
+        }
+    }
+    for h in handles {
+        if let Ok((d, op, (done, msg))) = h.join() {
+            *total.extra.entry("deep_nesting_cases".into()).or_default() += 1;
+            if !done {
+                *total.extra.entry("deep_nesting_cases_crashed".into()).or_default() += 1;
+                let v = Violation { prop: "C12".into(), sig: format!("deep|{op}|depth={d}|crash"), detail: format!("{op} on a chain of {d} nested elements (built through the API) ends the process: {msg}"), at: 0 };
+                total.add_violation(&v, d as u64);
+            }
+        }
+    }
+}
+
+#[derive(Serialize, Deserialize, Clone, Debug)]
+pub struct DeepReplay {
+    pub kind: String,
+    pub property: String,
+    pub sig: String,
+    pub depth: usize,
+    pub op: String,
+}
+
+pub fn replay_deep(rep: &DeepReplay) -> i32 {
+    let (done, msg) = deep_case(rep.depth, &rep.op);
+    println!("{} on a chain of {} nested elements: {}", rep.op, rep.depth, if done { "finished".to_string() } else { format!("process ended: {msg}") });
+    if done {
+        0
+    } else {
+        println!("VIOLATION property=C12 reproduced exactly");
+        1
+    }
+}
+
 pub fn check_hist(prop: &str, thorough: bool) -> i32 {
     let base = base_seed();
     println!("VERIF_SEED={base} property={prop} tier={}", if thorough { "thorough" } else { "quick" });
@@ -801,7 +857,10 @@ pub fn check_hist(prop: &str, thorough: bool) -> i32 {
             "signatures of known findings were saturated over many base seeds; a pre-existing defect first seen under a new seed would be reported as a violation".into(),
         ],
     };
-    let (total, crashes) = spawn_workers(&spec, base);
+    let (mut total, crashes) = spawn_workers(&spec, base);
+    if prop == "C12" && std::env::var("VERIF_NO_DEEP").is_err() {
+        deep_phase(thorough, &mut total);
+    }
     let mut exit = 0;
     for (seed, msg) in &crashes {
         eprintln!("worker crash: {msg}");
@@ -813,7 +872,20 @@ pub fn check_hist(prop: &str, thorough: bool) -> i32 {
             exit = 2;
         }
     }
-    let (e2, known_seen, n_viol) = classify(prop, &total, &|v| make_hist_replay(prop, &v.sig, v.first_seed, thorough, v.script.as_ref()));
+    let (e2, known_seen, n_viol) = classify(prop, &total, &|v| {
+        if let Some(rest) = v.sig.strip_prefix("deep|") {
+            // deep|<op>|depth=<d>|crash
+            let parts: Vec<&str> = rest.split('|').collect();
+            let depth = parts.get(1).and_then(|p| p.strip_prefix("depth=")).and_then(|d| d.parse().ok()).unwrap_or(0);
+            let rep = DeepReplay { kind: "deep".into(), property: "C12".into(), sig: v.sig.clone(), depth, op: parts.first().unwrap_or(&"").to_string() };
+            let dir = out_dir().join("replays").join("C12");
+            let _ = std::fs::create_dir_all(&dir);
+            let path = dir.join(format!("{:016x}.json", hash_str(&v.sig)));
+            std::fs::write(&path, serde_json::to_string_pretty(&rep).ok()?).ok()?;
+            return Some(path);
+        }
+        make_hist_replay(prop, &v.sig, v.first_seed, thorough, v.script.as_ref())
+    });
     if e2 != 0 && exit == 0 {
         exit = e2;
     }
@@ -821,7 +893,7 @@ pub fn check_hist(prop: &str, thorough: bool) -> i32 {
         exit = 1;
     }
     let wall = t0.elapsed().as_secs_f64();
-    let extra = if total.extra.is_empty() { json!({}) } else { json!({ "fault_enumeration": total.extra }) };
+    let extra = if total.extra.is_empty() { json!({}) } else { json!({ "additional_counters": total.extra }) };
     write_evidence(&spec, base, &total, wall, n_viol, &known_seen, extra);
     println!(
         "{prop}: {} runs ({} with faults), {} operations, {} ghost faults fired, {} violations, {} known findings seen, {:.1}s",
